@@ -742,3 +742,53 @@ pub fn random_evolution(rng: &mut Rng, w: &J, len: usize) -> (J, Vec<J>) {
     }
     (r, hist)
 }
+
+// ---------------------------------------------------------------------------------------------
+// C09: parsed Schema -> term in document-order normal form (what the checker really walks:
+// first occurrence of a named type = definition, later ones = Schema::Ref), verdicts
+// ---------------------------------------------------------------------------------------------
+pub fn schema_to_term(s: &Schema) -> J {
+    use apache_avro::schema::*;
+    match s {
+        Schema::Null => prim("null"),
+        Schema::Boolean => prim("boolean"),
+        Schema::Int => prim("int"),
+        Schema::Long => prim("long"),
+        Schema::Float => prim("float"),
+        Schema::Double => prim("double"),
+        Schema::Bytes => prim("bytes"),
+        Schema::String => prim("string"),
+        Schema::Date => prim("date"),
+        Schema::TimeMillis => prim("time-millis"),
+        Schema::TimeMicros => prim("time-micros"),
+        Schema::TimestampMillis => prim("timestamp-millis"),
+        Schema::TimestampMicros => prim("timestamp-micros"),
+        Schema::TimestampNanos => prim("timestamp-nanos"),
+        Schema::LocalTimestampMillis => prim("local-timestamp-millis"),
+        Schema::LocalTimestampMicros => prim("local-timestamp-micros"),
+        Schema::LocalTimestampNanos => prim("local-timestamp-nanos"),
+        Schema::Array(a) => json!({"k":"array","items":schema_to_term(&a.items)}),
+        Schema::Map(m) => json!({"k":"map","values":schema_to_term(&m.types)}),
+        Schema::Union(u) => json!({"k":"union","branches":u.variants().iter().map(schema_to_term).collect::<Vec<_>>()}),
+        Schema::Record(r) => json!({"k":"record","name":r.name.fullname(None),"fields":r.fields.iter().map(|f|
+            json!({"name":f.name,"type":schema_to_term(&f.schema),"aliases":f.aliases,"hasdef":f.default.is_some(),"defjson":{"j":"null"}})
+        ).collect::<Vec<_>>()}),
+        Schema::Enum(e) => json!({"k":"enum","name":e.name.fullname(None),"symbols":e.symbols,"hasdef":e.default.is_some(),"def":e.default.clone().unwrap_or_default()}),
+        Schema::Fixed(f) => json!({"k":"fixed","name":f.name.fullname(None),"size":f.size}),
+        Schema::Ref { name } => json!({"k":"ref","name":name.fullname(None)}),
+        _ => json!({"k":"other"}),
+    }
+}
+
+pub fn verdict(w: &Schema, r: &Schema, mutual: bool) -> J {
+    use apache_avro::schema_compatibility::{Compatibility, SchemaCompatibility};
+    let res = guarded(std::panic::AssertUnwindSafe(|| {
+        if mutual { SchemaCompatibility::mutual_read(w, r) } else { SchemaCompatibility::can_read(w, r) }
+    }));
+    match res {
+        Ok(Ok(Compatibility::Full)) => json!({"vd":"Full","panic":false,"why":""}),
+        Ok(Ok(Compatibility::Partial)) => json!({"vd":"Partial","panic":false,"why":""}),
+        Ok(Err(e)) => json!({"vd":"Err","panic":false,"why":clip(e.to_string().split_whitespace().collect::<Vec<_>>().join(" "))}),
+        Err(p) => json!({"vd":"Err","panic":true,"why":clip(p)}),
+    }
+}
